@@ -114,9 +114,15 @@ func (collection *rcLinkCollectionImpl) EntityDeleted(tx *bbolt.Tx, id string) e
 	fieldBucket := collection.getFieldBucket(tx, bId)
 
 	if !fieldBucket.HasError() {
+		// the linked ids are collected before anything is removed: the other side may live in the same store, and a
+		// bolt cursor does not survive writes next to it
+		var keys [][]byte
 		cursor := fieldBucket.Cursor()
 		for val, _ := cursor.First(); val != nil; val, _ = cursor.Next() {
 			_, key := GetTypeAndValue(val)
+			keys = append(keys, append([]byte(nil), key...))
+		}
+		for _, key := range keys {
 			// We don't need to remove the local entry because the parent bucket is getting deleted
 			if err := collection.otherField.unlink(tx, key, bId); err != nil {
 				return err
